@@ -417,7 +417,7 @@ class BaseMultipartText(BaseText):
             end = start + 1
         if end < 0:
             end = len(self) + end
-        return self._slice_end(len(self) - start)._slice_beginning(end - start)
+        return self._slice_end(len(self) - start)._slice_beginning(max(end - start, 0))
 
     def _slice_beginning(self, slice_length):
         """
